@@ -35,7 +35,7 @@ def _rec_cls():
             if isinstance(out, tuple) and (self.utility_scale, self.utility_shift) != (1.0, 0.0):
                 out = (out[0], out[1] * self.utility_scale + self.utility_shift)
             RECORD.append({"X": np.array(X), "y": np.array(y), "candidates": kw.get("candidates"), "batch_size": kw.get("batch_size"),
-                           "out": out})
+                           "sample_weight": None if kw.get("sample_weight") is None else np.array(kw.get("sample_weight"), dtype=float), "out": out})
             return out
     return Rec
 
@@ -149,12 +149,26 @@ def run(ctx):
         qs = SubSamplingWrapper(query_strategy=Rec(random_state=seed), max_candidates=mc, exclude_non_subsample=excl, random_state=seed)
         clf = R._clf([0, 1], seed)
         try:
-            idx, ut = qs.query(X=X, y=y, candidates=cand, batch_size=bs, return_utilities=True, clf=clf)
+            # every other case passes per-sample weights (weight of sample i = i + 1): they refer to the rows of X, so the wrapped
+            # strategy must receive, for every row it is handed, the weight of that very sample
+            swkw = {"sample_weight": np.arange(1, n + 1, dtype=float)} if h % 2 else {}
+            idx, ut = qs.query(X=X, y=y, candidates=cand, batch_size=bs, return_utilities=True, clf=clf, **swkw)
         except Exception as e:
-            ctx.violation("SubSamplingWrapper", "exception", repr(e), {"y": [None if np.isnan(v) else v for v in y], "cand": cs, "mc": mc, "excl": excl, "bs": bs})
+            ctx.violation("SubSamplingWrapper", "exception", repr(e), {"y": [None if np.isnan(v) else v for v in y], "cand": cs, "mc": mc, "excl": excl, "bs": bs, "sample_weight": bool(h % 2)})
             continue
         ctx.count("SubSamplingWrapper")
         rec = RECORD[-1]
+        if swkw:
+            ctx.count("SubSamplingWrapper_sample_weight")
+            rsw, rX = rec["sample_weight"], np.asarray(rec["X"], dtype=float)
+            exp_sw = rX[:, 0] * 4.0 + 1.0      # X[:, 0] = index / 4 identifies the sample of every row
+            if rsw is None or rsw.shape != exp_sw.shape or not np.array_equal(rsw, exp_sw):
+                ctx.violation("SubSamplingWrapper", "sample_weight_misaligned",
+                              f"rows handed to the wrapped strategy are samples {(rX[:, 0] * 4).astype(int).tolist()}, weights handed over {None if rsw is None else rsw.tolist()}, expected {exp_sw.tolist()}",
+                              {"X": X.tolist(), "y": [None if np.isnan(v) else v for v in y], "candidates": None if cand is None else cs, "max_candidates": mc,
+                               "exclude_non_subsample": excl, "batch_size": bs, "seed": seed, "sample_weight": swkw["sample_weight"].tolist()},
+                              what="SubSamplingWrapper: the sample weights the wrapped strategy receives are not those of the samples it receives")
+                continue
         inner_idx, inner_ut = rec["out"]
         inner_ut = np.asarray(inner_ut, dtype=float)
         if excl:
